@@ -109,6 +109,15 @@ func (c *Catalog) tagsFromTagsDirective(d *directive.Directive) ([]*Tag, *jerr.J
 	return tt, nil
 }
 
+// CheckTagsDirective checks a Tags directive on its own: its parameters and
+// whether every tag it names is declared. The tags of a URL are looked up only
+// for a method without Tags of its own, so a URL must have them checked even
+// if no method ever falls back to them.
+func (c *Catalog) CheckTagsDirective(d *directive.Directive) *jerr.JApiError {
+	_, je := c.tagsFromTagsDirective(d)
+	return je
+}
+
 func checkTagsDirective(d *directive.Directive) *jerr.JApiError {
 	if d.Annotation != "" {
 		return d.KeywordError(jerr.AnnotationIsForbiddenForTheDirective)
